@@ -68,6 +68,12 @@ print('CONFIRMED' if err>1e-4 else 'NOT-CONFIRMED')
 
 def run(chk):
     loader.install()
+    # 'the STM is the derivative of the flow' rests on A(x) = Df(x) and on each system integrating ITS OWN variational field
+    # (obligations shared with C01)
+    from contracts import C01 as _c01
+    chk.under_contract("hiten.algorithms.dynamics.rtbp:_jacobian_crtbp", "hiten.algorithms.dynamics.rtbp:_crtbp_accel")
+    _c01.jacobian_is_derivative_of_field(chk)
+    _c01._systems_in_a_row(chk)
     chk.under_contract(RT + ":_jacobian_crtbp", RT + ":_var_equations", RT + ":_compute_stm", RT + ":_compute_monodromy",
                        BA + ":_DirectedSystem.__init__", BA + ":_DirectedSystem._build_rhs_impl",
                        SO + ":_OrbitDynamicsService.monodromy", SO + ":_OrbitDynamicsService.compute_stability",
